@@ -106,7 +106,7 @@ REGISTRY = {
             {"engine": "recrash", "quick": {"n": 1, "points": 8}, "thorough": {"tier": "thorough"}, "oracle": True, "mismatch_is_failure": False, "timeout": 3400,
              "nontrivial": lambda case, res: "level=2" in case and res.startswith("ok") and "keys=-" not in res,
              "distinct_key": lambda case, res: case.split("plan=")[-1] + res,
-             "what": "crash images of traced workloads (TTL on and off, processes killed without close) are recovered by the real code with recovery's own device writes traced (hook H1); crash points x subsets x tearing INSIDE that recovery give second-level images, each reopened by the real code and by Model.Recovery (must agree); oracle: every second-level image reopens to exactly the contents the first recovery reported; images whose recovery wrote nothing are reopened twice"},
+             "what": "crash images of traced workloads (TTL on and off, processes killed without close) are recovered by the real code with recovery's own device writes traced (hook H1); crash points x subsets x tearing INSIDE that recovery give second-level images, each reopened by the real code and by Model.Recovery (must agree); oracle: every second-level image reopens to exactly the contents the first recovery reported; images whose recovery wrote nothing are reopened twice. Every fourth shard adds a directed workload (durable never-expiring generations overwritten by generations that are expired on arrival; image cut before the old ones are retired), whose TTL-aware recovery retires superseded generations AND expired winners, so that crash points fall between its retirement transactions"},
             {"engine": "crash", "quick": {"n": 1, "points": 8, "ttl": 1, "seedoff": 404}, "thorough": {"tier": "thorough", "ttl": 1, "seedoff": 404}, "oracle": True, "mismatch_is_failure": True, "timeout": 3400,
              "nontrivial": lambda case, res: "plan=" in case and res.startswith("ok") and "keys=-" not in res,
              "distinct_key": lambda case, res: res,
@@ -364,15 +364,20 @@ REGISTRY["C16"]["teq"].append({"engine": "cgen", "quick": {"n": 4000, "seedoff":
                                 "oracle": False, "mismatch_is_failure": False, "timeout": 3400,
                                 "nontrivial": lambda case, res: any(t != "-" and int(t) >= 100 for t in res.split()), "distinct_key": lambda case, res: case,
                                 "what": "T-eq for Model.CacheGen layer A (hook H13): get_for_record / insert_for_record / remove_for_record / record_entry and can_replace_generation of a real ClockCache over real Records -- random sequences over 1-3 keys and up to 8 generations created with colliding and decreasing timestamps, superseded (refcount 0), dropped, looked up, filled, removed, re-tagged, mixed with the untagged public calls; every result must equal Model.CacheGen.arun (non-trivial = at least one lookup hit)"})
+REGISTRY["C03"]["teq"].append({"engine": "recrash", "quick": {"n": 0, "points": 8, "directed_every": 2, "seedoff": 303}, "thorough": {"n": 4, "points": 30, "directed_every": 1, "seedoff": 303},
+                                "oracle": True, "mismatch_is_failure": False, "timeout": 3400,
+                                "nontrivial": lambda case, res: "level=2" in case and res.startswith("ok") and "keys=-" not in res,
+                                "distinct_key": lambda case, res: case.split("plan=")[-1] + res,
+                                "what": "crashes INSIDE a TTL-aware recovery: directed workloads (durable never-expiring generations of several keys overwritten by generations that are expired on arrival, among fillers; process killed) are cut before the superseded generations are retired, so that recovery has to retire superseded generations and expired winners; recovery's own device writes are traced (H1) and crash points x subsets x tearing inside it -- between its retirement transactions too -- give second-level images, each reopened by the real code and by Model.Recovery (must agree); oracle: every second-level image reopens to exactly the contents the first recovery reported (an expired newest generation never lets an older one resurface)"})
 REGISTRY["C02"]["teq"].append({"engine": "failpath", "quick": {"n": 4, "burst_every": 1, "seedoff": 402}, "thorough": {"n": 40, "burst_every": 1, "seedoff": 402},
                                 "oracle": True, "mismatch_is_failure": False, "timeout": 3400,
                                 "nontrivial": lambda case, res: "failpath-burst" in case, "distinct_key": lambda case, res: case,
                                 "what": "bursts: 9-14 thousand one-block inserts pile up behind the buffer-full trigger, whose background passes span several journal batches and are still running when flush() is called; half of the bursts also fail one journal write once. flush() is repeated until it answers Ok; at that instant every accepted key must be published on the device (oracle on the live snapshot) and readable"})
 for _pid, _off in (("C09", 9), ("C05", 5)):
-    REGISTRY[_pid]["teq"].append({"engine": "failpath", "quick": {"n": 60, "big_every": 20, "seedoff": 400 + _off}, "thorough": {"n": 2500, "big_every": 25, "seedoff": 400 + _off},
+    REGISTRY[_pid]["teq"].append({"engine": "failpath", "quick": {"n": 60, "big_every": 20, "keyfail_every": 10 if _pid == "C09" else 0, "seedoff": 400 + _off}, "thorough": {"n": 2500, "big_every": 25, "keyfail_every": 10 if _pid == "C09" else 0, "seedoff": 400 + _off},
                                   "oracle": True, "mismatch_is_failure": True, "timeout": 3400,
                                   "nontrivial": lambda case, res: "r=io" in res or "r=indet" in res or "r=space" in res, "distinct_key": lambda case, res: case,
-                                  "what": "T-eq for Model.FailPath: one shard's write path with the periodic coordinator paused (hook H11) and the pwrite path forced, so that the device calls of every flush() are numbered deterministically; an observer fails the calls named by a random plan (0-30 % of the first 90 calls, before or after the call), on roomy and on nearly full devices; 1-3 rounds of 0-3 inserts of 1-3 blocks and a flush. After every flush the result class (Ok / IoError / IndeterminateWrite / OutOfSpace), the allocator statistics, the disk-usage counter, the published records with their sectors and the number of device calls made must equal Model.FailPath.flush on the same plan. Every 20th case (thorough: 25th) is a pass over several journal transactions (T-eq with Model.FailBatches, hook H16 pausing the buffer-full trigger): 1025-2300 entries of one shard wait in the queue, the flush drains them in one pass of two or three batches, up to three device calls around the batch boundaries fail, flush is repeated; the same observables must equal Model.FailBatches.pflush. Oracle independent of the model: every accepted key stays readable with its bytes whatever failed; a flush that returned Ok left every earlier key published; the shard counters equal the queue lengths (H15)"})
+                                  "what": "T-eq for Model.FailPath: one shard's write path with the periodic coordinator paused (hook H11) and the pwrite path forced, so that the device calls of every flush() are numbered deterministically; an observer fails the calls named by a random plan (0-30 % of the first 90 calls, before or after the call), on roomy and on nearly full devices; 1-3 rounds of 0-3 inserts of 1-3 blocks and a flush. After every flush the result class (Ok / IoError / IndeterminateWrite / OutOfSpace), the allocator statistics, the disk-usage counter, the published records with their sectors and the number of device calls made must equal Model.FailPath.flush on the same plan. Every 20th case (thorough: 25th) is a pass over several journal transactions (T-eq with Model.FailBatches, hook H16 pausing the buffer-full trigger): 1025-2300 entries of one shard wait in the queue, the flush drains them in one pass of two or three batches, up to three device calls around the batch boundaries fail, flush is repeated; the same observables must equal Model.FailBatches.pflush. Oracle independent of the model: every accepted key stays readable with its bytes whatever failed; a flush that returned Ok left every earlier key published; the shard counters equal the queue lengths (H15). For C09 every 10th case is the several-workers case: the device refuses every write of ONE key's record (a TTL renewal or removal of an offloaded value, or a replacement) while the periodic flusher and the other shards' workers keep running healthy passes over filler traffic; flush() must report the failure, reads return the accepted value, a copy of the device as it stands still recovers a generation of the key, and once the record is accepted again flush() succeeds and a copy of the device recovers the accepted state"})
 for _asan in (False, True):
     REGISTRY["C20"]["teq"].append({"engine": "abuf", "quick": {"n": 1500, "seedoff": 20}, "thorough": {"n": 30000, "seedoff": 20}, "asan": _asan,
                                     "oracle": True, "mismatch_is_failure": True, "timeout": 3400,
